@@ -146,4 +146,39 @@ theorem fips_204_signatures_verify_as_written (O : Oracles) (hO : OracleOk O) (h
     | some b => rw [hS] at h8; have := ok_inj h8; rw [← this]
   · rw [hkp] at hs; cases hs
 
+/-- **Algorithms 1-3 as written**: what `ML-DSA.Sign` returns under a key pair of `ML-DSA.KeyGen_internal`, `ML-DSA.Verify` accepts - for every
+    context (a context longer than 255 bytes makes `Sign` return `⊥`, so there is nothing to verify) -/
+theorem ml_dsa_sign_then_verify_as_written (O : Oracles) (hO : OracleOk O) (hP : OraclePrefix O)
+    (p : ParamSet) (hp : p ∈ [ml_dsa_44, ml_dsa_65, ml_dsa_87]) (attempts : Nat) (hatt : attempts * p.l ≤ 65535)
+    (xi M ctx rnd pk sk sigma : List Nat)
+    (hkg : Spec.keyGenInternal (specParams p) O.h O.g (1680 * O.fuelScale) (1088 * O.fuelScale) xi = some (pk, sk))
+    (hsg : Spec.sign (specParams p) O.h O.g (1680 * O.fuelScale) (8 + 1360 * O.fuelScale) attempts sk M ctx (some rnd) = some (some sigma)) :
+    Spec.verify (specParams p) O.h O.g (1680 * O.fuelScale) (8 + 1360 * O.fuelScale) pk M sigma ctx = some true := by
+  unfold Spec.sign at hsg
+  unfold Spec.verify
+  by_cases hc : ctx.length > 255
+  · rw [if_pos hc] at hsg; simp at hsg
+  · rw [if_neg hc] at hsg
+    rw [if_neg hc]
+    simp only [Option.map_eq_some_iff, Option.some.injEq] at hsg
+    obtain ⟨s', hs', rfl⟩ := hsg
+    exact fips_204_signatures_verify_as_written O hO hP p hp attempts hatt xi _ rnd pk sk s' hkg hs'
+
+/-- **Algorithms 4-5 as written**: the same for `HashML-DSA.Sign` / `HashML-DSA.Verify` with each of the three pre-hash functions -/
+theorem hash_ml_dsa_sign_then_verify_as_written (O : Oracles) (hO : OracleOk O) (hP : OraclePrefix O)
+    (p : ParamSet) (hp : p ∈ [ml_dsa_44, ml_dsa_65, ml_dsa_87]) (attempts : Nat) (hatt : attempts * p.l ≤ 65535)
+    (xi M ctx rnd pk sk sigma : List Nat) (ph : Spec.PreHash)
+    (hkg : Spec.keyGenInternal (specParams p) O.h O.g (1680 * O.fuelScale) (1088 * O.fuelScale) xi = some (pk, sk))
+    (hsg : Spec.hashSign (specParams p) O.h O.g O.sha256 O.sha512 (1680 * O.fuelScale) (8 + 1360 * O.fuelScale) attempts sk M ctx ph (some rnd) = some (some sigma)) :
+    Spec.hashVerify (specParams p) O.h O.g O.sha256 O.sha512 (1680 * O.fuelScale) (8 + 1360 * O.fuelScale) pk M sigma ctx ph = some true := by
+  unfold Spec.hashSign at hsg
+  unfold Spec.hashVerify
+  by_cases hc : ctx.length > 255
+  · rw [if_pos hc] at hsg; simp at hsg
+  · rw [if_neg hc] at hsg
+    rw [if_neg hc]
+    simp only [Option.map_eq_some_iff, Option.some.injEq] at hsg
+    obtain ⟨s', hs', rfl⟩ := hsg
+    exact fips_204_signatures_verify_as_written O hO hP p hp attempts hatt xi _ rnd pk sk s' hkg hs'
+
 end Fips204.Props.C01
